@@ -223,6 +223,28 @@ Section FileIO.
 
   Definition fio_seek (s : hstate) (p : Z) : bool * hstate := seek_gen seek_eof s p.
 
+  (* ---- the library compiled with -DTEST_OFS_SEEK (its own test switch): adfFileSeek goes straight to adfFileSeekOFS_ on OFS volumes and to
+          adfFileSeekExt_ without a fallback otherwise.  Only used by the correspondence, to run the fallback walk of THIS model beside the
+          C code on healthy devices (checks/fileiocorr.py, harness variant adfh-ofsseek); no theorem is about these three. ---- *)
+  Definition seek_gen_t (eofk : hstate -> bool * hstate) (s : hstate) (p : Z) : bool * hstate :=
+    if (pos s =? p) && negb (cur s =? 0) && negb (pind s =? bs) then (true, s) else
+    let curDatablock := if 0 <? ndb s then ndb s - 1 else 0 in
+    let reqDatablock := p / bs in
+    if negb (cur s =? 0) && (curDatablock =? reqDatablock) then
+      let p' := Z.min p (fsize s) in (true, set_pind (set_pos s p') (p' mod bs))
+    else
+      let s1 := if mw s && chg s then set_chg (fio_flush s) false else s in
+      if p =? 0 then seek_start s1 else
+      if ofs then seek_ofs eofk s1 p else
+      let s2 := set_pos s1 (Z.min p (fsize s1)) in
+      if pos s2 =? fsize s2 then eofk s2 else seek_mid s2.
+  Definition seek_eof_t (s : hstate) : bool * hstate :=
+    if fsize s =? 0 then seek_start s else
+    let '(ok, s1) := seek_gen_t (fun t => (false, t)) s (fsize s - 1) in
+    if negb ok then (false, s1) else
+    (true, set_pind (set_pos s1 (fsize s1)) (if fsize s1 mod bs =? 0 then bs else fsize s1 mod bs)).
+  Definition fio_seek_t (s : hstate) (p : Z) : bool * hstate := seek_gen_t seek_eof_t s p.
+
   (* ---- adfFileRead ---- *)
   Fixpoint read_loop (fuel : nat) (s : hstate) (n : Z) : hstate * list Z :=
     match fuel with
